@@ -832,6 +832,60 @@ func checkC05Server(p *Prog, r *Report, rSrc, rPins, rPort *Rule) {
 			}
 		})
 	}
+	/* One-liners put together without a format: what follows the constant
+	text ending in "sha256//" — in a concatenation, or as the next string
+	written to the same builder — is the pin. */
+	checkPin := func(fn *ssa.Function, at ssa.Instruction, v ssa.Value, how string) {
+		n++
+		r.Saw("func " + fnName(fn))
+		cc := fmt.Sprintf("%s→%s:pin#%d", fnName(fn), how, n)
+		if isPinLoad(v) {
+			rPins.OK(cc, posOf(at), "what follows sha256// is s.l.Fingerprint")
+		} else if rs := p.deepRoots(v, isPinLoad); allAccepted(rs) {
+			rPins.OK(cc, posOf(at), "what follows sha256// is s.l.Fingerprint, handed down through private parameters and fields")
+		} else {
+			rPins.Bad(cc, posOf(at), "the pin printed is %s, not the listener's fingerprint", rootsString(valueRoots(v, nil)))
+		}
+	}
+	endsInPin := func(v ssa.Value) bool {
+		t, ok := constString(v)
+		return ok && strings.HasSuffix(t, "sha256//") && strings.Contains(t, "pinnedpubkey")
+	}
+	for _, fn := range p.Funcs() {
+		if nil == fn.Pkg || !strings.HasSuffix(fn.Pkg.Pkg.Path(), "/internal/hsrv") {
+			continue
+		}
+		for _, b := range fn.Blocks {
+			for k, i := range b.Instrs {
+				if bo, ok := i.(*ssa.BinOp); ok && token.ADD == bo.Op && endsInPin(bo.X) {
+					checkPin(fn, i, bo.Y, "concatenation")
+					continue
+				}
+				c := callCommon(i)
+				if nil == c || 2 != len(c.Args) || !endsInPin(c.Args[1]) {
+					continue
+				}
+				switch calleeName(c) {
+				case "(*strings.Builder).WriteString", "(*bytes.Buffer).WriteString":
+				default:
+					continue
+				}
+				for _, j := range b.Instrs[k+1:] {
+					c2 := callCommon(j)
+					if nil == c2 || 0 == len(c2.Args) || resolveCell(c2.Args[0]) != resolveCell(c.Args[0]) {
+						continue
+					}
+					if calleeName(c2) == calleeName(c) {
+						checkPin(fn, j, c2.Args[1], "WriteString")
+					} else {
+						n++
+						rPins.Bad(fmt.Sprintf("%s→WriteString:pin#%d", fnName(fn), n), posOf(j), "what is written after sha256// is not a string")
+					}
+					break
+				}
+			}
+		}
+	}
 	/* (HEAD has two — the callback help and the file one-liners; a tree
 	which formats the common prefix once and keeps it has one) */
 	if n < 1 {
